@@ -276,6 +276,19 @@ pub fn judge(scn: &Scn, out: &Outcome) -> Vec<Finding> {
 
     // ----------------------------------------------------------- leak (C17)
     if complete && out.teardown_done {
+        if let Some((a, b)) = out.growth {
+            // healthy: at most one batch (21 retirements) more or less
+            if b > a + 40 {
+                fs.push(f(
+                    "C17",
+                    format!("C17|memory-grows-after-concurrent-churn|{}", fl),
+                    format!(
+                        "live crate blocks after 16 add_stream/drop cycles with the fixed handles operating: {}, after 16 more: {} (reclamation no longer runs)",
+                        a, b
+                    ),
+                ));
+            }
+        }
         if out.mem.crate_live_blocks > 0 || out.live_delta.1 != 0 {
             fs.push(f(
                 "C17",
@@ -635,6 +648,15 @@ pub fn judge(scn: &Scn, out: &Outcome) -> Vec<Finding> {
                     format!("C06|drain-does-not-reach-end|last={:?}|{}", last.res, fl),
                     format!("stream {}: after all senders were dropped: {}", s, fmt_ev(last)),
                 ));
+                if last.res == Res::Empty {
+                    // every sender handle is gone and the stream is drained, yet
+                    // the receive says "nothing yet" instead of reporting the end
+                    fs.push(f(
+                        "C07",
+                        format!("C07|end-not-reported-after-all-senders-left|{}", fl),
+                        format!("stream {}: after all senders were dropped: {}", s, fmt_ev(last)),
+                    ));
+                }
             }
             outstanding.insert(s, d as i64 - probe_ok as i64);
             if !v.dynamic.contains(&s) {
